@@ -3,8 +3,8 @@
 package main
 
 import (
-	"io"
 	"fmt"
+	"io"
 	"runtime"
 	"strings"
 	"sync"
@@ -37,6 +37,12 @@ func c12Tree(r *rng, nClients int) *tree {
 	im.node.overlays = []overlay{{0, tableBytes(im.regs)}}
 	t.add(im.node)
 	t.add(keyFileNode("/PS3ISO/enc.dkey", randKey(r), r, 0))
+	// an encrypted 3k3y image: its key is read out of the image itself at every open, while other connections
+	// open (and probe) other files
+	k3 := genEncImage(r, "/GAMES3K3Y.iso", 16, 0)
+	k3.regs = []refRegion{{0, 2}, {6, 16}}
+	k3.node.overlays = []overlay{{0, tableBytes(k3.regs)}, {0xF70, wmEnc}, {0xF80, randKey(r)}}
+	t.add(k3.node)
 	t.add(tnode{path: "/priv", kind: 'd', mtime: genMtime(r)})
 	for i := 0; i < nClients; i++ {
 		t.add(tnode{path: fmt.Sprintf("/priv/c%d", i), kind: 'd', mtime: genMtime(r)})
@@ -47,13 +53,25 @@ func c12Tree(r *rng, nClients int) *tree {
 
 func c12Session(r *rng, t *tree, me int, n int) []creq {
 	priv := fmt.Sprintf("/priv/c%d", me)
-	shared := []string{"/shared/f0.bin", "/shared/f1.bin", "/shared/f2.bin", "/shared/f3.bin", "/***DVD***/shared/game", "/PS3ISO/enc.iso", "/shared/missing",
+	shared := []string{"/GAMES3K3Y.iso", "/shared/f0.bin", "/shared/f1.bin", "/shared/f2.bin", "/shared/f3.bin", "/***DVD***/shared/game", "/PS3ISO/enc.iso", "/shared/missing",
 		"/shared/cd2048.bin", "/shared/cd2336.bin", "/shared/cd2352.bin", "/shared/cd2448.bin", "/shared/raw.bin"}
 	var reqs []creq
 	opened := false
 	created := false
 	// half of the clients start with a burst on the SAME encrypted image (reads inside its encrypted
 	// regions, aligned and not): per-image scratch state (IV, cipher mode) must not be shared
+	if me%4 == 1 {
+		// open churn on the 3k3y image against the other clients' opens: open, read inside an encrypted region, again
+		for k := 0; k < 4; k++ {
+			reqs = append(reqs, creq{op: opOpenFile, path: "/GAMES3K3Y.iso"}, creq{op: opReadFile, a: uint64(r.pick(2048, 4096, 5000)), b: uint64(7*2048 + r.pick(0, 1, 100, 2048))})
+		}
+		opened = true
+	} else if me%4 == 3 {
+		for k := 0; k < 6; k++ {
+			reqs = append(reqs, creq{op: opOpenFile, path: r.picks("/shared/raw.bin", "/shared/cd2352.bin", "/shared/f0.bin", "/shared/cd2048.bin")})
+		}
+		opened = true
+	}
 	if me%2 == 0 {
 		reqs = append(reqs, creq{op: opOpenFile, path: "/PS3ISO/enc.iso"})
 		for k := 0; k < 6; k++ {
@@ -126,13 +144,32 @@ func c12Stream(o *out, r *rng, thorough bool) {
 	}
 	oldProcs := runtime.GOMAXPROCS(0)
 	defer runtime.GOMAXPROCS(oldProcs)
-	for round := 0; round < rounds; round++ {
+	for round := 0; round <= rounds; round++ {
 		nc := clientCounts[round%len(clientCounts)]
 		runtime.GOMAXPROCS([]int{1, 2, 4, 16}[round%4])
+		storm := round == rounds // the last round: an open storm
+		if storm {
+			nc = 8
+			runtime.GOMAXPROCS(1) // one scheduler thread + a file system that yields at every call: see yieldFs
+		}
 		t := c12Tree(r, nc)
 		sessions := make([][]creq, nc)
 		for i := range sessions {
 			sessions[i] = c12Session(r, t, i, 12+r.intn(25))
+			if storm {
+				// half of the clients open the encrypted 3k3y image again and again (its key is read out of the image at
+				// every open) and read inside an encrypted region; the other half open other files (each open probes them)
+				sessions[i] = nil
+				for k := 0; k < 300; k++ {
+					if i%2 == 0 {
+						sessions[i] = append(sessions[i], creq{op: opOpenFile, path: "/GAMES3K3Y.iso"},
+							creq{op: opReadFile, a: 2048, b: uint64(7*2048 + (k%3)*700)})
+					} else {
+						sessions[i] = append(sessions[i], creq{op: opOpenFile, path: []string{"/shared/raw.bin", "/shared/cd2352.bin", "/shared/f0.bin", "/PS3ISO/enc.iso"}[k%4]})
+					}
+				}
+				o.count("open-storm")
+			}
 		}
 		withTempRoot(func(root string) {
 			if err := t.materialize(root); err != nil {
@@ -143,7 +180,9 @@ func c12Stream(o *out, r *rng, thorough bool) {
 			if err != nil {
 				return
 			}
+			plainFs = storm
 			env := newConnEnv(root, true, 65536)
+			plainFs = false
 			defer env.close()
 			results := make([]string, nc)
 			var wg sync.WaitGroup
